@@ -22,7 +22,7 @@ RULE = ("(a) histories of 2-8 connections opening, calling and closing against r
         "non-trivial = more than one connection or thread involved")
 ASSUMPTIONS = ["a slow constructor (sleep) is a legitimate application behaviour that widens the race window without touching Pyro",
                "scheduling points = source lines of Daemon._getInstance (and its nested createInstance) only"]
-REQUIRED_REACH = ["connected_socket_ok", "failing_disconnect_hooks", "single_ok", "session_ok", "percall_ok", "creator_counts_ok", "failing_creator_ok", "racing_first_calls", "session_instances_dropped", "schedules_explored", "multi_daemon_ok", "oneway_first_requests", "registered_class_inherits_behavior", "registration_changes_ok", "slow_constructor_with_commtimeout"]
+REQUIRED_REACH = ["shutdown_cases_ok", "connected_socket_ok", "failing_disconnect_hooks", "single_ok", "session_ok", "percall_ok", "creator_counts_ok", "failing_creator_ok", "racing_first_calls", "session_instances_dropped", "schedules_explored", "multi_daemon_ok", "oneway_first_requests", "registered_class_inherits_behavior", "registration_changes_ok", "slow_constructor_with_commtimeout"]
 SHARD_TIMEOUT = {"quick": 240, "thorough": 2800}
 SHAPES = ["truthy", "falsy_len", "falsy_bool", "eq_always"]
 CREATORS = ["none", "ok", "raises", "raises_type", "wrongtype", "subclass"]     # subclass: the creator returns an instance of a subclass (allowed by the daemon's isinstance check)
@@ -367,6 +367,51 @@ def connected_socket_case(P, mode, shape, creator, rec, r, sername):
     rec.count("connected_socket_ok")
 
 
+def shutdown_case(P, shape, creator, rec, r, sername):
+    """the daemon is shut down while a client is connected: the thread-pool server goes on serving that connection until the client leaves.
+    Calls made on it after the shutdown are served by THE single instance (or fail), never by a second one"""
+    fx = fixture.Fixture(servertype="thread", COMMTIMEOUT=0.0, THREADPOOL_SIZE=8, THREADPOOL_SIZE_MIN=2)
+    cls, book = make_class(P, "single", shape, creator)
+    pay = {"shutdown_case": True, "shape": shape, "creator": creator, "serializer": sername}
+    rec.case(("shutdown", shape, creator, sername), nontrivial=True, sample=pay if rec.evaluations % 10 == 3 else None)
+    fx.daemon.register(cls, "single")
+    how = r.choice(["shutdown", "close"])
+    got, errs = [], []
+    try:
+        p = fx.proxy("single", serializer=sername, timeout=8.0)
+        q = fx.proxy("single", serializer=sername, timeout=8.0)
+        got.append(tuple(p.who(0)))
+        got.append(tuple(q.who(0)))
+        t = threading.Thread(target=(fx.daemon.shutdown if how == "shutdown" else fx.daemon.close), daemon=True)
+        t.start()
+        t.join(20)
+        for c in range(1, 4):
+            for px in (p, q):
+                try:
+                    got.append(tuple(px.who(c)))
+                except P.errors.CommunicationError as x:
+                    errs.append(x)
+        for px in (p, q):
+            px._pyroRelease()
+    except Exception as x:
+        rec.inconc("shutdown case failed in the harness: %r" % (x,))
+        return
+    finally:
+        fx.stop()
+    insts = sorted({g[0] for g in got})
+    with book.lock:
+        created, ccalls = list(book.created), book.creator_calls
+    if len(insts) != 1 or len(created) != 1:
+        rec.violation("single-mode-multiple-instances:after-shutdown", "single/%s/%s: two clients were connected when the daemon was %s; their later calls on those connections were served by instances %r "
+                      "(%d constructed, %d calls failed with a communication error)" % (shape, creator, "shut down" if how == "shutdown" else "closed", insts, len(created), len(errs)), pay)
+        return
+    if creator in ("ok", "subclass") and ccalls != 1:
+        rec.violation("creator-call-count", "single/%s: creator invoked %d times around a daemon %s" % (shape, ccalls, how), pay)
+        return
+    rec.count("shutdown_cases_ok")
+    rec.count("calls_served_after_shutdown", max(0, len(got) - 2))
+
+
 def registration_change_case(fx, shape, creator, rec, r, sername):
     """'single': one instance per daemon, whatever happens to the class's registrations meanwhile - registered under two ids, one of them
     unregistered while a connection is open, all of them unregistered and the class registered again"""
@@ -609,6 +654,8 @@ def run_shard(shard, rec):
                     multi_daemon_case([fx, fx2], make_fx, mode, shape, creator, rec, r, r.choice(fixture.SERIALIZERS))
                     if mode == "single":
                         registration_change_case(fx, shape, creator, rec, r, r.choice(fixture.SERIALIZERS))
+                        if shard["servertype"] == "thread" and creator != "subclass" and shape in ("truthy", "falsy_len"):
+                            shutdown_case(P, shape, creator, rec, r, r.choice(fixture.SERIALIZERS))
             for shape in SHAPES:
                 for creator in CREATORS:
                     for race in ((True, False) if mode == "single" else (False,)):
@@ -646,6 +693,9 @@ def replay(payload, rec):
         rec.case(("replay", repr(payload)[:100]))
         print("schedule:", res.trace)
         check_sched(P, payload["mode"], payload["shape"], payload["creator"], payload["nthreads"], rec, sc, res, got, book, payload)
+        return
+    if payload.get("shutdown_case"):
+        shutdown_case(P, payload["shape"], payload["creator"], rec, r, payload["serializer"])
         return
     if payload.get("connected_socket"):
         connected_socket_case(P, payload["mode"], payload["shape"], payload["creator"], rec, r, payload["serializer"])
